@@ -82,48 +82,45 @@ theorem ascii_append {a b : Str} : Ascii (a ++ b) ↔ Ascii a ∧ Ascii b := by
   exact ⟨fun h => ⟨fun c hc => h c (Or.inl hc), fun c hc => h c (Or.inr hc)⟩,
          fun h c hc => hc.elim (h.1 c) (h.2 c)⟩
 
-/-- three ASCII letters from an empty buffer: one lookup, buffer empty again -/
-theorem loop_three (m : List (Str × Str)) (out : Str) (a b c : Char) (rest : Str)
-    (ha : a.val ≤ 127) (hb : b.val ≤ 127) (hc : c.val ≤ 127) :
+/-- three letters from an empty buffer: one lookup, buffer empty again -/
+theorem loop_three (m : List (Str × Str)) (out : Str) (a b c : Char) (rest : Str) :
     translateLoop m ([], out) (a :: b :: c :: rest) =
       translateLoop m ([], (mapGetStr m (upper [a, b, c])).reverse ++ out) rest := by
-  have h1 : a.utf8Size = 1 := Char.utf8Size_eq_one_iff.2 ha
-  have h2 : b.utf8Size = 1 := Char.utf8Size_eq_one_iff.2 hb
-  have h3 : c.utf8Size = 1 := Char.utf8Size_eq_one_iff.2 hc
-  simp [translateLoop, step, byteLen, h1, h2, h3]
+  simp [translateLoop, step]
 
-theorem loop_short (m : List (Str × Str)) (out : Str) (s : Str) (hs : Ascii s) (hl : s.length < 3) :
+theorem loop_short (m : List (Str × Str)) (out : Str) (s : Str) (hl : s.length < 3) :
     (translateLoop m ([], out) s).2 = out := by
   match s, hl with
   | [], _ => rfl
-  | [a], _ =>
-    have h1 : a.utf8Size = 1 := Char.utf8Size_eq_one_iff.2 (hs a (by simp))
-    simp [translateLoop, step, byteLen, h1]
-  | [a, b], _ =>
-    have h1 : a.utf8Size = 1 := Char.utf8Size_eq_one_iff.2 (hs a (by simp))
-    have h2 : b.utf8Size = 1 := Char.utf8Size_eq_one_iff.2 (hs b (by simp))
-    simp [translateLoop, step, byteLen, h1, h2]
+  | [a], _ => simp [translateLoop, step]
+  | [a, b], _ => simp [translateLoop, step]
   | _ :: _ :: _ :: _, h => simp at h; omega
 
-theorem loop_chunks (m : List (Str × Str)) : ∀ (s : Str) (out : Str), Ascii s →
+theorem loop_chunks (m : List (Str × Str)) : ∀ (s : Str) (out : Str),
     (translateLoop m ([], out) s).2 = ((chunks3 s).flatMap fun c => mapGetStr m (upper c)).reverse ++ out
-  | a :: b :: c :: rest, out, hs => by
-    have ha := hs a (by simp)
-    have hb := hs b (by simp)
-    have hc := hs c (by simp)
-    rw [loop_three m out a b c rest ha hb hc,
-        loop_chunks m rest _ (fun x hx => hs x (by simp [hx]))]
+  | a :: b :: c :: rest, out => by
+    rw [loop_three m out a b c rest, loop_chunks m rest _]
     simp [chunks3, List.append_assoc]
-  | [], out, _ => by simp [translateLoop, chunks3]
-  | [a], out, hs => by rw [loop_short m out [a] hs (by simp)]; simp [chunks3]
-  | [a, b], out, hs => by rw [loop_short m out [a, b] hs (by simp)]; simp [chunks3]
+  | [], out => by simp [translateLoop, chunks3]
+  | [a], out => by rw [loop_short m out [a] (by simp)]; simp [chunks3]
+  | [a, b], out => by rw [loop_short m out [a, b] (by simp)]; simp [chunks3]
 
 /-- the translation is the concatenation, in order, of the residues of the complete in-frame codons -/
-theorem translateCore_eq_chunks (t : Table) (s : Str) (hs : Ascii s) :
+theorem translateCore_eq_chunks (t : Table) (s : Str) :
     translateCore t s = (chunks3 s).flatMap (aaOf t) := by
   simp only [translateCore]
-  rw [loop_chunks _ _ _ hs, List.append_nil, List.reverse_reverse]
+  rw [loop_chunks, List.append_nil, List.reverse_reverse]
   rfl
+
+theorem byteLen_eq_zero (s : Str) : byteLen s = 0 ↔ s = [] := by
+  cases s with
+  | nil => simp [byteLen]
+  | cons c cs =>
+    have := Char.utf8Size_pos c
+    simp only [byteLen, List.map_cons, List.sum_cons]
+    constructor
+    · intro h; omega
+    · intro h; cases h
 
 /-! ### chunks -/
 
